@@ -24,6 +24,37 @@ import (
 	"verif/harness/rig/run"
 )
 
+// sigCap lets each structural signature be raised at most twice by the verifier and dial parts (the same
+// defect shows up in every validity window / hash list crossing); further hits are only counted.
+type sigCap struct {
+	mu sync.Mutex
+	n  map[string]int
+}
+
+var sigs = &sigCap{n: map[string]int{}}
+
+func (c *sigCap) first(r *run.R, sig string) bool {
+	c.mu.Lock()
+	defer c.mu.Unlock()
+	c.n[sig]++
+	if c.n[sig] > 2 {
+		r.Count("violations_same_signature_not_repeated", 1)
+		return false
+	}
+	return true
+}
+
+// labelsStale: the verifier reads the real clock; the generated validity edges keep >= 10 minutes from
+// the `now` the labels were computed with. Cases reached later than 4 minutes after that are skipped
+// (counted), so that no label can have flipped. Not part of any verdict.
+func labelsStale(r *run.R, now time.Time) bool {
+	if time.Since(now) > 4*time.Minute {
+		r.Count("skipped_labels_older_than_4min", 1)
+		return true
+	}
+	return false
+}
+
 func TestC18(t *testing.T) {
 	r := run.New(t, "C18", "exploration")
 	defer r.Finish()
